@@ -8,7 +8,7 @@
 (*   for pipelines c.seq = projection of applying the constituent passes   *)
 (*   one after another with their own transform().                         *)
 (***************************************************************************)
-EXTENDS JudgeCore, CircuitOps
+EXTENDS JudgeCore, CircuitOps, IOUtils
 
 IsSubseq(a, b) ==     \* a is a subsequence of b (both without repetitions)
   /\ SeqSet(a) \subseteq SeqSet(b)
@@ -100,4 +100,47 @@ C18Fails(c) ==
         <<"pipeline-differs-from-sequencing:" \o c.shape, c.seq_exc = "" /\ SameNetlist(post, c.seq)>>
       >>)
      [] OTHER -> {}
+C04Trivial == {"INPUT", "NOT", "LNOT", "RNOT", "IFF", "LIFF", "RIFF", "ALWAYS_FALSE", "ALWAYS_TRUE"}
+
+(*******************************  C04  **************************************)
+(* kind "minimize": c.orig (deep copy taken before the call), c.res, c.exc, c.validation *)
+NoEquivalentGates(c) == LET tt == GateTT(c) IN \A a, b \in Labels(c) : a # b => tt[a] # tt[b]
+(* Named deviation Dev_TrivialNegationAsLeaf (known finding): in the branch taken when every
+   output of a cut cone equals a cut leaf or its negation, an output h that is the NEGATION of
+   a leaf lf is replaced by lf itself.  A wrong result is explained by this deviation iff it
+   computes what the original computes after redirecting every use of some such gates h to
+   their leaves. *)
+DevP == IF "DEV" \in DOMAIN IOEnv THEN IOEnv.DEV ELSE ""
+Redirect(c, m) ==
+  [c EXCEPT !.g = [l \in DOMAIN c.g |-> [c.g[l] EXCEPT !.o = [j \in DOMAIN c.g[l].o |-> m[c.g[l].o[j]]]]],
+            !.o = [j \in DOMAIN c.o |-> m[c.o[j]]]]
+ExplainedByTrivialNegation(orig, res) ==
+  LET tt == GateTT(orig)
+      all == AllRows(Len(orig.i))
+      leaves(h) == {lf \in Labels(orig) : lf # h /\ tt[lf] = all \ tt[h] /\ lf \notin ReachUp(orig, {h})}
+      H == {h \in NonInputSet(orig) : leaves(h) # {}}
+      choices == FoldLeft(LAMBDA acc, h : {(h :> x) @@ f : f \in acc, x \in {h} \cup leaves(h)},
+                          {[l \in Labels(orig) \ H |-> l]}, SetToSeq(H))
+  IN /\ Cardinality(H) <= 7
+     /\ \E m \in choices : (\E h \in H : m[h] # h) /\ WF5(Redirect(orig, m)) /\ TT(Redirect(orig, m)) = TT(res)
+
+C04Fails(c) ==
+  LET orig == c.orig
+      res == c.res
+      hasRes == c.exc = "" \/ (c.exc = "FailedValidationError" /\ c.has_res)
+      explained == DevP = "Dev_TrivialNegationAsLeaf" /\ hasRes /\ WFFails(res) = {} /\ res.i = orig.i
+                     /\ Len(res.o) = Len(orig.o) /\ ExplainedByTrivialNegation(orig, res)
+  IN
+  IF c.exc = "FailedValidationError" THEN (IF explained THEN {} ELSE {"reported-a-failed-validation"})
+  ELSE IF c.exc # "" THEN
+       (IF NoEquivalentGates(orig) THEN {"internal-error-without-equivalent-gates:" \o c.exc} ELSE {})
+  ELSE FailSet(<<
+         <<"result-ill-formed", WFFails(res) = {}>>,
+         <<"inputs-differ", res.i = orig.i>>,
+         <<"output-count-differs", Len(res.o) = Len(orig.o)>>,
+         <<"truth-table-differs", WFFails(res) # {} \/ res.i # orig.i \/ TT(res) = TT(orig) \/ explained>>,
+         <<"more-non-trivial-gates-than-before",
+             Cardinality({l \in Labels(res) : res.g[l].t \notin C04Trivial})
+               <= Cardinality({l \in Labels(orig) : orig.g[l].t \notin C04Trivial})>>
+       >>)
 =============================================================================
